@@ -17,7 +17,12 @@ EXPLANATION = (
     "the key carried in the datagram, L derived from that key; (c) the Peer handed on is built from that key only; "
     "(d) sign side covers the whole packet; (e) every handler registered by every overlay class (and every override in "
     "a subclass) keeps the authentication class frozen from the reviewed tree; (f) decode_map is dispatched only by "
-    "Community.on_packet and __wrapped__ is never used. Decides the dataflow/dominance facts, not the cryptography."
+    "Community.on_packet and __wrapped__ is never used; (g) Community.on_packet calls a decode_map handler only after "
+    "comparing the first 22 bytes of the very datagram it hands on with the overlay's own prefix (a signature covers the "
+    "prefix, which binds a message to one overlay only if the receiver checks it). A signature / prefix check spelled as "
+    "an `assert` does not count (compiled away under -O). Expressions are compared after substituting single-assignment "
+    "locals, values that travel through locals are followed by reaching definitions on the CFG. "
+    "Decides the dataflow/dominance facts, not the cryptography."
 )
 
 TABLE = os.path.join(os.path.dirname(os.path.dirname(__file__)), "tables", "c01_handlers.json")
@@ -30,18 +35,140 @@ def _is_param_unmodified(fi: FuncInfo, name: str) -> bool:
     return name in fi.params() and not local_defs(fi, name)
 
 
+# ------------------------------------------------------------------------------------------ def-use helpers
+_OWN_SCOPE = (ast.Lambda, ast.ListComp, ast.SetComp, ast.DictComp, ast.GeneratorExp)
+
+
+def _expand(fi: FuncInfo, e: ast.AST | None, depth: int = 6) -> ast.AST | None:
+    """
+    Copy of `e` in which every local that is assigned exactly once (plain `x = <expr>`, not a parameter) is replaced
+    by its defining expression, recursively, and `cast(T, v)` is replaced by v.  A single-assignment local has the
+    value of its defining expression wherever it is readable, so two expressions with the same expansion denote the
+    same value as long as the expansions are built from the same parameters / attributes (what the rules compare).
+    The original tree is never modified (unchanged sub-trees are shared, rebuilt nodes carry no parent link).
+    """
+    if e is None:
+        return None
+    e = strip_cast(e)
+    if isinstance(e, ast.Name):
+        if isinstance(e.ctx, ast.Load) and depth > 0:
+            d = single_def(fi, e.id)
+            if d is not None and d[1] is None:
+                return _expand(fi, d[0], depth - 1)
+        return e
+    if isinstance(e, _OWN_SCOPE) or not e._fields:
+        return e
+    new = type(e)()
+    for f in e._fields:
+        v = getattr(e, f, None)
+        if isinstance(v, list):
+            v = [_expand(fi, x, depth) if isinstance(x, ast.AST) else x for x in v]
+        elif isinstance(v, ast.AST):
+            v = _expand(fi, v, depth)
+        setattr(new, f, v)
+    return ast.copy_location(new, e)
+
+
+def _xnorm(fi: FuncInfo, e: ast.AST | None) -> str | None:
+    return None if e is None else norm(_expand(fi, e))
+
+
+def _alternatives(fi: FuncInfo, e: ast.AST, depth: int = 4) -> list[ast.AST]:
+    """
+    Every expression whose value `e` may take: `a or b` -> a, b; `a if c else b` -> a, b; a local -> the values of ALL
+    its assignments (over-approximation of the reaching definitions).  Anything that cannot be followed is returned as is.
+    """
+    e = strip_cast(e)
+    if depth <= 0:
+        return [e]
+    if isinstance(e, ast.BoolOp) and isinstance(e.op, ast.Or):
+        return [x for v in e.values for x in _alternatives(fi, v, depth - 1)]
+    if isinstance(e, ast.IfExp):
+        return _alternatives(fi, e.body, depth - 1) + _alternatives(fi, e.orelse, depth - 1)
+    if isinstance(e, ast.Name) and e.id not in fi.params():
+        defs = local_defs(fi, e.id)
+        if defs and all(v is not None and idx is None for _, v, idx in defs):
+            return [x for _, v, _ in defs for x in _alternatives(fi, v, depth - 1)]
+    return [e]
+
+
+def _tuple_component(fi: FuncInfo, e: ast.AST, depth: int = 4) -> tuple[ast.AST | None, int | None]:
+    """(producer expression, constant index) when `e` is component <index> of a single producer:
+    `a, b = P` ... `a`  |  `r = P` ... `r[0]`  |  `a = P[0]` ... `a`  |  `P[0]`."""
+    e = strip_cast(e)
+    if isinstance(e, ast.Name) and depth > 0:
+        d = single_def(fi, e.id)
+        if d is None:
+            return None, None
+        val, idx = d
+        if idx is not None:
+            return resolve(fi, val), idx
+        return _tuple_component(fi, val, depth - 1)
+    if isinstance(e, ast.Subscript) and isinstance(e.slice, ast.Constant) and isinstance(e.slice.value, int):
+        return resolve(fi, e.value), e.slice.value
+    return None, None
+
+
+def _def_nodes(cfg, fi: FuncInfo, name: str) -> dict:
+    """CFG node -> assigned value (None when unknown: tuple component, loop target, augmented assignment, ...)."""
+    out = {}
+    for st, val, idx in local_defs(fi, name):
+        nodes = cfg.nodes_for(st)
+        if not nodes:
+            raise AnalysisError(f"undecided: assignment of `{name}` in {fi.qualname} has no control-flow node")
+        for n in nodes:
+            out[n] = val if idx is None and not isinstance(st, ast.AugAssign) else None
+    return out
+
+
+_UNBOUND = "<no assignment since start>"
+_UNKNOWN = "<unknown value>"
+
+
+def _reaching(defs: dict, start) -> dict:
+    """Reaching definitions of one local from `start`: node -> set of defining nodes (None: no assignment since start)
+    whose value the local may hold on entry to the node.  An assignment that raises does not assign."""
+    state = {start: {None}}
+    todo = [start]
+    while todo:
+        u = todo.pop()
+        cur = state[u]
+        for v, lab in u.succ:
+            out = cur if (lab == "exc" or u not in defs) else {u}
+            s = state.setdefault(v, set())
+            if not out <= s:
+                s |= out
+                todo.append(v)
+    return state
+
+
+def _values_at(cfg, fi: FuncInfo, node, e: ast.AST, start, depth: int = 4) -> list:
+    """Expressions (or _UNBOUND / _UNKNOWN) whose value `e` can have when `node` is entered on a path from `start`."""
+    e = strip_cast(e)
+    if not isinstance(e, ast.Name) or e.id in fi.params() or not local_defs(fi, e.id):
+        return [e]
+    if depth <= 0:
+        return [_UNKNOWN]
+    defs = _def_nodes(cfg, fi, e.id)
+    out = []
+    for dn in _reaching(defs, start).get(node, set()):
+        if dn is None:
+            out.append(_UNBOUND)
+        elif defs[dn] is None:
+            out.append(_UNKNOWN)
+        else:
+            out.extend(_values_at(cfg, fi, dn, defs[dn], start, depth - 1))
+    return out
+
+
+def _in_assert(e: ast.AST) -> bool:
+    from ..model import enclosing_stmt
+    return isinstance(enclosing_stmt(e), ast.Assert)
+
+
 def _verify_call_link(ctx: Ctx, fi: FuncInfo, name_expr: ast.AST, rule: str, site: ast.AST) -> tuple[ast.Call | None, int | None]:
-    """`name_expr` must be a local assigned exactly once from self._verify_signature(auth, data)[idx]."""
-    if not isinstance(name_expr, ast.Name):
-        return None, None
-    d = single_def(fi, name_expr.id)
-    if d is None:
-        return None, None
-    val, idx = d
-    val = strip_cast(val)
-    if isinstance(val, ast.Subscript) and isinstance(val.slice, ast.Constant):
-        idx = val.slice.value
-        val = strip_cast(val.value)
+    """`name_expr` must be component idx of a single self._verify_signature(auth, data) call (through local aliases)."""
+    val, idx = _tuple_component(fi, name_expr)
     if isinstance(val, ast.Call) and chain(val.func) == "self._verify_signature":
         return val, idx
     return None, None
@@ -49,16 +176,11 @@ def _verify_call_link(ctx: Ctx, fi: FuncInfo, name_expr: ast.AST, rule: str, sit
 
 def _check_auth_unpack(ctx: Ctx, fi: FuncInfo, auth_expr: ast.AST, data_name: str, site: ast.AST, rule: str) -> bool:
     """auth must come from unpack_serializable(BinMemberAuthenticationPayload, <data param>, offset=23)[0]."""
-    if not isinstance(auth_expr, ast.Name):
-        return False
-    d = single_def(fi, auth_expr.id)
-    if d is None:
-        return False
-    val, idx = d
-    val = strip_cast(val)
+    val, idx = _tuple_component(fi, auth_expr)
     if not (isinstance(val, ast.Call) and chain(val.func) == "self.serializer.unpack_serializable" and idx == 0):
         return False
     a0, a1, off = arg(val, 0), arg(val, 1, "data"), arg(val, 2, "offset")
+    a0, a1, off = (None if a is None else resolve(fi, a) for a in (a0, a1, off))
     ok = (a0 is not None and chain(a0) == "BinMemberAuthenticationPayload"
           and isinstance(a1, ast.Name) and a1.id == data_name
           and isinstance(off, ast.Constant) and off.value == 23)
@@ -66,6 +188,25 @@ def _check_auth_unpack(ctx: Ctx, fi: FuncInfo, auth_expr: ast.AST, data_name: st
         r = ctx.repo.resolve_name(fi.module, "BinMemberAuthenticationPayload")
         ok = isinstance(r, ClassInfo) and r.module.relpath == "ipv8/messaging/payload_headers.py"
     return ok
+
+
+_ASSERT_REASON = ("the only signature check on the way to the handler is an `assert` statement: it is compiled away under "
+                  "python -O / PYTHONOPTIMIZE, after which the handler runs for forged and tampered datagrams")
+
+
+def _dominating_verification(ctx: Ctx, fi: FuncInfo, facts, site: ast.AST) -> tuple[ast.Call | None, bool]:
+    """(the _verify_signature call whose verdict [0] is known to be truthy at the site through a real branch,
+    True when such a fact exists only through an assert statement)."""
+    vcall, asserted = None, False
+    for f in facts:
+        if f.op == "truthy" and f.pos:
+            vc, idx = _verify_call_link(ctx, fi, f.left, "verify-before-call", site)
+            if vc is not None and idx == 0:
+                if _in_assert(f.atom):
+                    asserted = True
+                else:
+                    vcall = vc
+    return vcall, asserted and vcall is None
 
 
 def rule_wrappers(ctx: Ctx) -> None:
@@ -82,15 +223,10 @@ def rule_wrappers(ctx: Ctx) -> None:
             facts = facts_at(cfg, call)
             fstr = [str(f) for f in facts]
             # --- verify-before-call
-            ok = False
-            vcall = None
-            for f in facts:
-                if f.op == "truthy" and f.pos:
-                    vc, idx = _verify_call_link(ctx, fi, f.left, "verify-before-call", call)
-                    if vc is not None and idx == 0:
-                        ok, vcall = True, vc
-            ctx.check(ok, "verify-before-call", fi, call,
-                      f"{deco}: handler call dominated by truthy _verify_signature(...)[0]",
+            vcall, asserted = _dominating_verification(ctx, fi, facts, call)
+            ctx.check(vcall is not None, "verify-before-call", fi, call,
+                      f"{deco}: handler call dominated by truthy _verify_signature(...)[0] (a real branch, not an assert)",
+                      _ASSERT_REASON if asserted else
                       "the wrapped handler can be reached without a successful signature verification", fstr)
             if vcall is not None:
                 a_auth, a_data = arg(vcall, 0), arg(vcall, 1)
@@ -115,13 +251,10 @@ def rule_wrappers(ctx: Ctx) -> None:
     ctx.anchor(rets, "_ez_unpack_auth return")
     for r in rets:
         facts = facts_at(cfg, r)
-        ok, vcall = False, None
-        for f in facts:
-            if f.op == "truthy" and f.pos:
-                vc, idx = _verify_call_link(ctx, fi, f.left, "verify-before-call", r)
-                if vc is not None and idx == 0:
-                    ok, vcall = True, vc
-        ctx.check(ok, "verify-before-call", fi, r, "_ez_unpack_auth: return dominated by truthy signature check",
+        vcall, asserted = _dominating_verification(ctx, fi, facts, r)
+        ctx.check(vcall is not None, "verify-before-call", fi, r,
+                  "_ez_unpack_auth: return dominated by truthy signature check (a real branch, not an assert)",
+                  _ASSERT_REASON if asserted else
                   "_ez_unpack_auth can return payloads without a successful signature verification",
                   [str(f) for f in facts])
         if vcall is not None:
@@ -133,7 +266,8 @@ def rule_wrappers(ctx: Ctx) -> None:
                       "verify-before-call", fi, vcall, "_ez_unpack_auth: key container unpacked from the datagram at offset 23",
                       "the verification key is not the one carried in this datagram")
             # returned auth is the verified one
-            first = r.value.elts[0] if isinstance(r.value, ast.Tuple) and r.value.elts else None
+            rv = _expand(fi, r.value)
+            first = rv.elts[0] if isinstance(rv, ast.Tuple) and rv.elts else None
             ctx.check(first is not None and a_auth is not None and same_expr(strip_cast(first), a_auth),
                       "peer-from-auth-key", fi, r, "_ez_unpack_auth returns the auth payload that was verified",
                       "the returned auth payload is not the one whose key verified the signature")
@@ -146,12 +280,8 @@ def _payload_source(ctx: Ctx, fi: FuncInfo, site: ast.AST, vcall: ast.Call, labe
     ctx.anchor(ulist, f"unpack_serializable_list in {label}")
     for u in ulist:
         src = arg(u, 1, "data")
-        ok = False
-        if isinstance(src, ast.Name):
-            d = single_def(fi, src.id)
-            if d is not None:
-                v, idx = d
-                ok = strip_cast(v) is vcall and idx == 1
+        prod, idx = _tuple_component(fi, src) if src is not None else (None, None)
+        ok = prod is vcall and idx == 1
         ctx.check(ok, "payload-from-signed-bytes", fi, u,
                   f"{label}: payloads are decoded from the remainder returned by _verify_signature",
                   "payloads handed to the handler are decoded from bytes other than the signed remainder")
@@ -161,23 +291,28 @@ def _peer_arg(ctx: Ctx, fi: FuncInfo, call: ast.Call, a_auth: ast.AST | None, ad
     peer_arg = call.args[1] if len(call.args) >= 2 else None
     ok = False
     why = "the peer handed to the handler is not derived from the verified key"
-    if peer_arg is not None and a_auth is not None:
-        alts = peer_arg.values if isinstance(peer_arg, ast.BoolOp) and isinstance(peer_arg.op, ast.Or) else [peer_arg]
+    if peer_arg is not None and a_auth is not None and not isinstance(peer_arg, ast.Starred):
+        # every value the argument can take (`a or b`, conditional expression, a local assigned on several branches):
+        # each must be the registry entry stored under the verified key or a fresh Peer built from the verified key
+        want = norm(a_auth) + ".public_key_bin"
+        registry = "self.network.verified_by_public_key_bin"
         good = []
-        for alt in alts:
-            e = resolve(fi, alt)
+        for alt in _alternatives(fi, peer_arg):
+            e = _expand(fi, alt)
             if isinstance(e, ast.Call) and chain(e.func) == "Peer":
                 k = arg(e, 0)
-                good.append(k is not None and norm(k) == norm(a_auth) + ".public_key_bin"
+                good.append(k is not None and norm(k) == want
                             and isinstance(ctx.repo.resolve_name(fi.module, "Peer"), ClassInfo))
-            elif isinstance(e, ast.Call) and chain(e.func) == "self.network.verified_by_public_key_bin.get":
+            elif isinstance(e, ast.Call) and chain(e.func) == registry + ".get":
                 k = arg(e, 0)
-                good.append(k is not None and norm(k) == norm(a_auth) + ".public_key_bin" and len(e.args) == 1)
+                good.append(k is not None and norm(k) == want and len(e.args) == 1 and not e.keywords)
+            elif isinstance(e, ast.Subscript) and chain(e.value) == registry and not isinstance(e.slice, ast.Slice):
+                good.append(norm(e.slice) == want)      # registry[K]: the same entry that .get(K) returns
             else:
                 good.append(False)
         ok = bool(good) and all(good)
     ctx.check(ok, "peer-from-auth-key", fi, call,
-              f"{label}: peer argument is verified_by_public_key_bin.get(K) or Peer(K, addr) with K = auth.public_key_bin",
+              f"{label}: peer argument is verified_by_public_key_bin.get(K) / [K] or Peer(K, addr) with K = auth.public_key_bin",
               why)
 
 
@@ -188,29 +323,44 @@ def rule_verify_signature(ctx: Ctx) -> None:
     rets = [n for n in walk_no_nested(fi.node) if isinstance(n, ast.Return)]
     ctx.anchor(rets, "_verify_signature return")
     ok_data = _is_param_unmodified(fi, data_name)
+    ok_auth = _is_param_unmodified(fi, auth_name)
+    carried = f"{auth_name}.public_key_bin"
+
+    def is_data(e) -> bool:
+        return isinstance(e, ast.Name) and e.id == data_name
+
+    def none_or_zero(e) -> bool:
+        return e is None or (isinstance(e, ast.Constant) and e.value == 0 and not isinstance(e.value, bool))
+
     for r in rets:
-        v = r.value
+        # all comparisons below are made on fully expanded expressions (single-assignment locals substituted), so it
+        # does not matter which sub-expressions were hoisted into locals or whether the result tuple went through one
+        v = _expand(fi, r.value)
         first = v.elts[0] if isinstance(v, ast.Tuple) and len(v.elts) == 2 else None
-        first = resolve(fi, first) if first is not None else None
         good = False
+        key_txt = None
         reason = "return value is not (is_valid_signature(...), remainder)"
-        if isinstance(first, ast.Call) and call_name(first) == "is_valid_signature" and len(first.args) == 3:
-            k, d, s = (resolve(fi, a) for a in first.args)
+
+        def siglen_ok(e) -> bool:
+            return (isinstance(e, ast.Call) and call_name(e) == "get_signature_length" and len(e.args) == 1
+                    and not e.keywords and key_txt is not None and norm(e.args[0]) == key_txt)
+
+        def neg_len(e) -> bool:
+            return isinstance(e, ast.UnaryOp) and isinstance(e.op, ast.USub) and siglen_ok(e.operand)
+
+        if isinstance(first, ast.Call) and call_name(first) == "is_valid_signature" and len(first.args) == 3 \
+                and not first.keywords:
+            k, d, s = first.args
             # key
-            key_ok = (isinstance(k, ast.Call) and call_name(k) == "key_from_public_bin"
-                      and norm(arg(k, 0)) == f"{auth_name}.public_key_bin")
+            key_ok = (isinstance(k, ast.Call) and call_name(k) == "key_from_public_bin" and arg(k, 0) is not None
+                      and norm(arg(k, 0)) == carried and ok_auth)
+            if isinstance(k, ast.Call):
+                key_txt = norm(k)
             # L
-            def siglen_ok(e) -> bool:
-                e = resolve(fi, e)
-                return (isinstance(e, ast.Call) and call_name(e) == "get_signature_length"
-                        and isinstance(resolve(fi, arg(e, 0)), ast.Call)
-                        and norm(resolve(fi, arg(e, 0))) == norm(k))
-            def neg_len(e) -> bool:
-                return isinstance(e, ast.UnaryOp) and isinstance(e.op, ast.USub) and siglen_ok(e.operand)
-            d_ok = (isinstance(d, ast.Subscript) and isinstance(d.value, ast.Name) and d.value.id == data_name
-                    and isinstance(d.slice, ast.Slice) and d.slice.lower is None and d.slice.step is None
+            d_ok = (isinstance(d, ast.Subscript) and is_data(d.value)
+                    and isinstance(d.slice, ast.Slice) and none_or_zero(d.slice.lower) and d.slice.step is None
                     and d.slice.upper is not None and neg_len(d.slice.upper))
-            s_ok = (isinstance(s, ast.Subscript) and isinstance(s.value, ast.Name) and s.value.id == data_name
+            s_ok = (isinstance(s, ast.Subscript) and is_data(s.value)
                     and isinstance(s.slice, ast.Slice) and s.slice.upper is None and s.slice.step is None
                     and s.slice.lower is not None and neg_len(s.slice.lower))
             good = key_ok and d_ok and s_ok and ok_data
@@ -221,23 +371,62 @@ def rule_verify_signature(ctx: Ctx) -> None:
                   reason)
         # remainder: data[2+len(pk) : -L]
         second = v.elts[1] if isinstance(v, ast.Tuple) and len(v.elts) == 2 else None
-        second = resolve(fi, second) if second is not None else None
         rem_ok = False
-        if isinstance(second, ast.Subscript) and isinstance(second.value, ast.Name) and second.value.id == data_name \
-                and isinstance(second.slice, ast.Slice) and second.slice.upper is not None:
+        if isinstance(second, ast.Subscript) and is_data(second.value) and isinstance(second.slice, ast.Slice) \
+                and second.slice.upper is not None and second.slice.step is None:
             up = second.slice.upper
             lo = second.slice.lower
-            up_ok = isinstance(up, ast.UnaryOp) and isinstance(up.op, ast.USub) and isinstance(resolve(fi, up.operand), ast.Call) \
-                and call_name(resolve(fi, up.operand)) == "get_signature_length"
-            lo_ok = lo is not None and norm(lo) in (f"2 + len({auth_name}.public_key_bin)", f"len({auth_name}.public_key_bin) + 2")
-            rem_ok = up_ok and lo_ok
+            # upper bound: -L with L the signature length (of the verification key when that one was recognised)
+            up_ok = neg_len(up) if key_txt is not None else (
+                isinstance(up, ast.UnaryOp) and isinstance(up.op, ast.USub) and isinstance(up.operand, ast.Call)
+                and call_name(up.operand) == "get_signature_length")
+            lo_ok = lo is not None and norm(lo) in (f"2 + len({carried})", f"len({carried}) + 2")
+            rem_ok = up_ok and lo_ok and ok_data
         ctx.check(rem_ok, "payload-from-signed-bytes", fi, r,
                   "remainder = data[2+len(key) : -L] (inside the signed bytes; the auth header is skipped exactly)",
                   "the remainder handed on for payload decoding is not the signed region minus the auth header")
 
 
+def _concat_parts_at(cfg, fi: FuncInfo, node, e: ast.AST, depth: int = 8) -> list[list[ast.AST]] | None:
+    """
+    The value of bytes expression `e` on entry to CFG node `node`, as a concatenation of leaf expressions: one list of
+    parts per combination of reaching definitions (`x = a + b`, `x += c`, `x = x + c` are all followed).  None when a
+    definition cannot be followed (loop-carried, tuple component, ...).
+    """
+    e = strip_cast(e)
+    if depth <= 0:
+        return None
+    if isinstance(e, ast.BinOp) and isinstance(e.op, ast.Add):
+        left, right = _concat_parts_at(cfg, fi, node, e.left, depth - 1), _concat_parts_at(cfg, fi, node, e.right, depth - 1)
+        if left is None or right is None:
+            return None
+        return [a + b for a in left for b in right]
+    if isinstance(e, ast.Name) and e.id not in fi.params() and local_defs(fi, e.id):
+        defs = {}
+        for st, val, idx in local_defs(fi, e.id):
+            for n in cfg.nodes_for(st):
+                defs[n] = (st, val, idx)
+        out: list[list[ast.AST]] = []
+        for dn in _reaching(defs, cfg.entry).get(node, set()):
+            if dn is None:
+                continue                      # unassigned on this path: the read raises, nothing is signed / sent
+            st, val, idx = defs[dn]
+            if isinstance(st, ast.AugAssign) and isinstance(st.op, ast.Add) and isinstance(st.target, ast.Name):
+                sub = _concat_parts_at(cfg, fi, dn, ast.BinOp(left=st.target, op=ast.Add(), right=st.value), depth - 1)
+            elif val is not None and idx is None:
+                sub = _concat_parts_at(cfg, fi, dn, val, depth - 1)
+            else:
+                sub = None
+            if sub is None:
+                return None
+            out.extend(sub)
+        return out
+    return [[e]]
+
+
 def rule_sign_side(ctx: Ctx) -> None:
     repo = ctx.repo
+    from ..model import enclosing_stmt, parent
     sites = []
     for fi in repo.all_functions():
         for c in calls(fi, "create_signature"):
@@ -247,63 +436,117 @@ def rule_sign_side(ctx: Ctx) -> None:
                 sites.append((fi, c))
     ctx.floor("sign-covers-all", len(sites), 2)
     for fi, c in sites:
-        st = c
-        from ..model import enclosing_stmt
+        cfg = ctx.cfg(fi)
         st = enclosing_stmt(c)
         signed = arg(c, 1)
+        nodes = cfg.nodes_for(c)
         ok = False
         reason = "signature is not appended to the very buffer that was signed"
-        if isinstance(st, ast.AugAssign) and isinstance(st.op, ast.Add) and isinstance(st.target, ast.Name) \
-                and isinstance(signed, ast.Name) and signed.id == st.target.id and st.value is c:
-            # the buffer starts with the prefix and msg id: first def is  <prefix> + bytes([msg]) ...
-            defs = [d for d in local_defs(fi, signed.id) if d[1] is not None]
-            first = defs[0][1] if defs else None
-            lead = first
-            while isinstance(lead, ast.BinOp) and isinstance(lead.op, ast.Add):
-                lead = lead.left
-            starts_with_prefix = lead is not None and (norm(lead) in ("prefix", "self._prefix"))
-            has_msg = first is not None and any(isinstance(n, ast.Call) and chain(n.func) == "bytes" for n in ast.walk(first))
-            packs = any(mentions(d[0], "pack_serializable_list") for d in local_defs(fi, signed.id))
-            ok = starts_with_prefix and has_msg and packs
-            reason = f"signed buffer must be prefix + bytes([msg_id]) + packed payloads: prefix_first={starts_with_prefix} msg_id={has_msg} payloads={packs}"
+
+        def texts(alts):
+            return None if alts is None else sorted({tuple(_xnorm(fi, p) for p in parts) for parts in alts})
+
+        signed_alts = None
+        if signed is not None and nodes:
+            per = [_concat_parts_at(cfg, fi, n, signed) for n in nodes]
+            signed_alts = None if any(p is None for p in per) else [a for p in per for a in p]
+        # where the signature is appended: `B += sig`, `... = B + sig` / `return B + sig`, sig being the call itself or
+        # the single-assignment local that holds it
+        sig_exprs = [c] + [n for n in walk_no_nested(fi.node) if isinstance(n, ast.Name) and isinstance(n.ctx, ast.Load)
+                           and resolve(fi, n) is c]
+        appended_to = []            # (cfg nodes of the appending statement, buffer expression)
+        for s in sig_exprs:
+            p = parent(s)
+            while isinstance(p, ast.Call) and strip_cast(p) is s:      # cast(...) around it
+                s, p = p, parent(p)
+            if isinstance(p, ast.AugAssign) and isinstance(p.op, ast.Add) and p.value is s and isinstance(p.target, ast.Name):
+                appended_to.append((cfg.nodes_for(p), p.target))
+            elif isinstance(p, ast.BinOp) and isinstance(p.op, ast.Add) and p.right is s:
+                appended_to.append((cfg.nodes_for(p), p.left))
+        if signed_alts and appended_to:
+            same = True
+            for ns, buf in appended_to:
+                per = [_concat_parts_at(cfg, fi, n, buf) for n in ns]
+                got = None if (not per or any(p is None for p in per)) else [a for p in per for a in p]
+                same = same and got is not None and texts(got) == texts(signed_alts)
+            # every possible content of the signed buffer: overlay prefix first, then the message id byte, and the payloads
+            def is_prefix(p) -> bool:
+                return _xnorm(fi, p) in ("prefix", "self._prefix")
+
+            def is_msg(p) -> bool:
+                x = _expand(fi, p)
+                return isinstance(x, ast.Call) and chain(x.func) == "bytes"
+
+            starts_with_prefix = all(parts and is_prefix(parts[0]) for parts in signed_alts)
+            has_msg = all(len(parts) > 1 and is_msg(parts[1]) for parts in signed_alts)
+            packs = all(any(mentions(_expand(fi, p), "pack_serializable_list") for p in parts[2:]) for parts in signed_alts)
+            ok = same and starts_with_prefix and has_msg and packs
+            reason = (f"signed buffer must be prefix + bytes([msg_id]) + packed payloads and the signature must be appended to "
+                      f"exactly that buffer: appended_to_signed={same} prefix_first={starts_with_prefix} msg_id={has_msg} "
+                      f"payloads={packs}")
+        elif signed is not None and nodes and signed_alts is None:
+            raise AnalysisError(f"undecided: cannot follow how the signed buffer `{norm(signed)}` is built in {fi.qualname}")
         ctx.check(ok, "sign-covers-all", fi, st, "signature computed over prefix+msg_id+payloads and appended to it", reason)
 
 
 def rule_is_valid_signature(ctx: Ctx) -> None:
     fi = ctx.repo.method("ECCrypto", "is_valid_signature", "ipv8/keyvault/crypto.py")
+    cfg = ctx.cfg(fi)
     params = fi.params()
     key, data, sig = params[1], params[2], params[3]
     vcalls = [c for c in calls(fi) if call_name(c) == "verify"]
     ctx.anchor(vcalls, "ec_key.verify call in ECCrypto.is_valid_signature")
+    from ..model import enclosing_stmt
+    ret_stmts = [n for n in walk_no_nested(fi.node) if isinstance(n, ast.Return)]
+    ret_nodes = [n for r in ret_stmts for n in cfg.nodes_for(r)]
+
+    def is_false(e) -> bool:
+        return isinstance(e, ast.Constant) and e.value is False
+
+    def returned_values(start) -> list[tuple[ast.Return, list]]:
+        """for every return reachable from `start`: the expressions whose value it can hand back on a path from start
+        (through locals: reaching definitions, so `v = verify(); ... return v` is the same as `return verify()`)"""
+        seen = cfg.reach([start])
+        out = []
+        for r in ret_stmts:
+            vals = []
+            for n in cfg.nodes_for(r):
+                if n in seen:
+                    vals.extend([ast.Constant(value=None)] if r.value is None else _values_at(cfg, fi, n, r.value, start))
+            if vals:
+                out.append((r, vals))
+        return out
+
+    from_entry = returned_values(cfg.entry)
     for c in vcalls:
-        from ..model import ancestors, enclosing_stmt
         st = enclosing_stmt(c)
-        in_try = None
-        for a in ancestors(c):
-            if isinstance(a, ast.Try) and any(st is s or st in list(ast.walk(s)) for s in a.body):
-                in_try = a
-                break
-        ok_try = False
-        if in_try is not None:
-            for h in in_try.handlers:
-                catches = h.type is None or chain(h.type) in ("Exception", "BaseException")
-                returns_false = any(isinstance(s, ast.Return) and isinstance(s.value, ast.Constant) and s.value.value is False
-                                    for s in h.body) and not any(isinstance(s, ast.Return) and not (isinstance(s.value, ast.Constant) and s.value.value is False) for s in ast.walk(h))
-                if catches and returns_false:
-                    ok_try = True
-        ctx.check(ok_try, "exception-safe-validate", fi, st, "verify() wrapped in try/except Exception: return False",
+        # --- an exception raised by verify() ends in `False`: every exceptional successor of the statement is a try
+        #     dispatch that catches everything, and from each of its handlers the function can only return False
+        exc_succ = [v for n in cfg.nodes_for(c) for v, lab in n.succ if lab == "exc"]
+        ok_try = bool(exc_succ)
+        for d in exc_succ:
+            if d.kind != "dispatch" or not all(h.kind == "handler" for h, _ in d.succ):
+                ok_try = False       # not inside a try, or no handler for Exception / everything
+                continue
+            for h, _ in d.succ:
+                for r, vals in returned_values(h):
+                    if not all(v is not _UNBOUND and v is not _UNKNOWN and is_false(v) for v in vals):
+                        ok_try = False
+                if cfg.exit in cfg.reach([h], cut_nodes=ret_nodes):
+                    ok_try = False   # falls off the end without a return
+        ctx.check(ok_try, "exception-safe-validate", fi, st, "verify() wrapped in try/except Exception that yields False",
                   "an exception in verify() is not turned into `False`")
-        ok_ret = isinstance(st, ast.Return) and st.value is c
+        ok_ret = any(any(v is c for v in vals) for _, vals in from_entry)
         ctx.check(ok_ret, "exception-safe-validate", fi, st, "is_valid_signature returns verify()'s own result",
                   "the result of verify() is not what is_valid_signature returns")
-        ok_args = (chain(c.func) == f"{key}.verify" and len(c.args) == 2 and norm(c.args[0]) == sig and norm(c.args[1]) == data
+        ok_args = (chain(_expand(fi, c.func)) == f"{key}.verify" and len(c.args) == 2 and not c.keywords
+                   and _xnorm(fi, c.args[0]) == sig and _xnorm(fi, c.args[1]) == data
                    and not local_defs(fi, key) and not local_defs(fi, data) and not local_defs(fi, sig))
         ctx.check(ok_args, "exception-safe-validate", fi, c, "verify(signature, data) on the given key with unmodified arguments",
                   "verify() is not called as key.verify(signature, data) with the function's own arguments")
-    # every return is either that call, or False inside the handler
-    for r in [n for n in walk_no_nested(fi.node) if isinstance(n, ast.Return)]:
-        v = r.value
-        good = (isinstance(v, ast.Call) and call_name(v) == "verify") or (isinstance(v, ast.Constant) and v.value is False)
+    # every value that can be returned is that call's result, or False (an unassigned local raises: nothing is returned)
+    for r, vals in from_entry:
+        good = all(v is _UNBOUND or (v is not _UNKNOWN and (any(v is c for c in vcalls) or is_false(v))) for v in vals)
         ctx.check(good, "exception-safe-validate", fi, r, "return is verify(...) or False",
                   "is_valid_signature can return something other than verify()'s verdict or False")
 
@@ -370,14 +613,18 @@ def classify_handler(ctx: Ctx, fi: FuncInfo) -> str:
         if not (isinstance(a, ast.Name) and a.id == params[2] and _is_param_unmodified(fi, params[2])):
             return "raw"
     # Peer(...) built from the auth returned by _ez_unpack_auth
+    # (the key may travel through locals: every value it can take must be <auth>.public_key_bin of such an auth)
     for c in calls(fi, "Peer"):
         k = arg(c, 0)
-        base = k.value if isinstance(k, ast.Attribute) and k.attr == "public_key_bin" else None
-        if not isinstance(base, ast.Name):
+        if k is None:
             return "raw"
-        defs = local_defs(fi, base.id)
-        if not defs or not all(d[1] is not None and strip_cast(d[1]) in ucalls and d[2] == 0 for d in defs):
-            return "raw"
+        for kk in _alternatives(fi, k):
+            base = kk.value if isinstance(kk, ast.Attribute) and kk.attr == "public_key_bin" else None
+            if not isinstance(base, ast.Name):
+                return "raw"
+            defs = local_defs(fi, base.id)
+            if not defs or not all(d[1] is not None and strip_cast(d[1]) in ucalls and d[2] == 0 for d in defs):
+                return "raw"
     return "manual-authenticated"
 
 
@@ -436,6 +683,79 @@ def rule_handler_table(ctx: Ctx) -> None:
     ctx.floor("handler-auth.authenticated", n_auth, 25)
 
 
+def rule_own_prefix(ctx: Ctx) -> None:
+    """
+    The signature covers the 22-byte overlay prefix, but that binds a signed message to ONE overlay only if the receiving
+    overlay compares the prefix with its own before it dispatches: without the comparison a datagram that a victim
+    signed for overlay A verifies just as well in overlay B (same bytes, same key) and B's authenticated handlers run
+    - and create a verified-peer entry - for a message the key holder never addressed to B.  The endpoint's prefix map
+    is not a substitute: on_packet is also called directly (broadcast bootstrapper, crypto endpoint, add_listener).
+    Necessary condition decided here: in Community.on_packet every call of a handler taken from decode_map is
+    dominated by `self._prefix == D[:22]` (or D.startswith(self._prefix)) for the very bytes D handed to the handler.
+    """
+    repo = ctx.repo
+    fi = repo.method("Community", "on_packet", "ipv8/community.py")
+    cfg = ctx.cfg(fi)
+    hcalls = []
+    for c in calls(fi):
+        if any(mentions(a, "self.decode_map") for a in _alternatives(fi, c.func)):
+            hcalls.append(c)
+    ctx.anchor(hcalls, "call of a decode_map handler in Community.on_packet")
+
+    def own_prefix(e) -> bool:
+        return chain(_expand(fi, e)) == "self._prefix"
+
+    def head_of(e) -> str | None:
+        e = _expand(fi, e)
+        if not (isinstance(e, ast.Subscript) and isinstance(e.slice, ast.Slice) and e.slice.step is None
+                and isinstance(e.value, ast.Name)):
+            return None
+        lo, up = e.slice.lower, e.slice.upper
+        if lo is not None and repo.resolve_const(fi.module, lo, fi.cls) != 0:
+            return None
+        if up is None or repo.resolve_const(fi.module, up, fi.cls) != 22:
+            return None
+        return e.value.id
+
+    def compared_buffer(f) -> str | None:
+        """name of the bytes local whose first 22 bytes the fact compares with self._prefix (either polarity)"""
+        if f.op == "eq" and f.right is not None:
+            if own_prefix(f.left):
+                return head_of(f.right)
+            if own_prefix(f.right):
+                return head_of(f.left)
+        if f.op == "truthy":
+            c = _expand(fi, f.left)
+            if isinstance(c, ast.Call) and isinstance(c.func, ast.Attribute) and c.func.attr == "startswith" \
+                    and len(c.args) == 1 and not c.keywords and isinstance(c.func.value, ast.Name) and own_prefix(c.args[0]):
+                return c.func.value.id
+        return None
+
+    for c in hcalls:
+        facts = facts_at(cfg, c)
+        real = [f for f in facts if not _in_assert(f.atom)]
+        checked = {b for b in (compared_buffer(f) for f in real if f.pos) if b is not None}
+        # the bytes handed to the handler: a plain local (bound once, e.g. unpacked from the packet tuple) among the arguments
+        handed = {a.id for a in (_expand(fi, x) for x in c.args if not isinstance(x, ast.Starred))
+                  if isinstance(a, ast.Name) and len(local_defs(fi, a.id)) <= 1}
+        ok = bool(checked & handed)
+        # a dominating test that relates self._prefix to the dispatched bytes in a spelling not understood here
+        # cannot be judged either way
+        def relates(f) -> bool:
+            x = _expand(fi, f.atom)
+            return (compared_buffer(f) is None and mentions(x, "self._prefix")
+                    and bool({n.id for n in ast.walk(x) if isinstance(n, ast.Name)} & handed))
+        if not ok and any(relates(f) for f in real):
+            raise AnalysisError("undecided: Community.on_packet tests self._prefix before dispatch in a form this rule "
+                                f"does not understand: {[str(f) for f in facts]}")
+        ctx.check(ok, "own-prefix-before-dispatch", fi, c,
+                  "Community.on_packet: handler call dominated by self._prefix == data[:22] on the bytes it is given",
+                  "Community.on_packet dispatches to the (authenticated) handlers without comparing the datagram's "
+                  "22-byte prefix with the overlay's own prefix: a datagram signed for another overlay is accepted here "
+                  "(cross-overlay replay; the signer becomes a verified peer of an overlay it never addressed)",
+                  [str(f) for f in facts])
+
+
 def rule_no_bypass(ctx: Ctx) -> None:
     repo = ctx.repo
     # decode_map subscripts used for dispatch (Load context, result called) only in Community.on_packet
@@ -483,6 +803,7 @@ def run(ctx: Ctx) -> None:
     rule_sign_side(ctx)
     rule_is_valid_signature(ctx)
     rule_handler_table(ctx)
+    rule_own_prefix(ctx)
     rule_no_bypass(ctx)
     ctx.assume("signature primitive (libnacl / OpenSSL keys behind Key.verify) is unforgeable: trusted")
     ctx.assume("Serializer.unpack_serializable decodes BinMemberAuthenticationPayload as a 2-byte length + key (C02 covers the codec)")
@@ -564,6 +885,40 @@ WITNESSES = [
      "new": """        except (PacketDecodingError, PackError):
             auth, _ = self.serializer.unpack_serializable(BinMemberAuthenticationPayload, data, offset=23)
             _, payload = self._ez_unpack_noauth(IntroductionRequestPayload, data[2 + len(auth.public_key_bin):])"""},
+    {"name": "wrapper_wd: signature check turned into an assert (gone under python -O)", "file": _LC,
+     "rule": "verify-before-call",
+     "old": """            if not signature_valid:
+                payloads_list = [payload_class.__name__ for payload_class in payloads]
+                msg = f"Incoming packet {payloads_list!s} has an invalid signature"
+                raise PacketDecodingError(msg)""",
+     "new": """            assert signature_valid, "Incoming packet has an invalid signature\""""},
+    {"name": "on_packet: own-prefix comparison dropped, length check kept", "file": "ipv8/community.py",
+     "rule": "own-prefix-before-dispatch",
+     "old": "if self._prefix != data[:22] or len(data) < 23:", "new": "if len(data) < 23:"},
+    {"name": "on_packet: prefix compared on other bytes than the ones dispatched", "file": "ipv8/community.py",
+     "rule": "own-prefix-before-dispatch",
+     "old": "if self._prefix != data[:22] or len(data) < 23:",
+     "new": "if self._prefix != self._prefix[:22] or len(data) < 23:"},
+    {"name": "is_valid_signature: verdict local defaults to True on exception", "file": "ipv8/keyvault/crypto.py",
+     "rule": "exception-safe-validate",
+     "old": """            return ec_key.verify(signature, data)
+        except Exception:
+            return False""",
+     "new": """            verdict = ec_key.verify(signature, data)
+        except Exception:
+            verdict = True
+        return verdict"""},
+    {"name": "wrapper: fresh Peer on the unknown-key branch built from another key", "file": _LC, "rule": "peer-from-auth-key",
+     "old": """            peer = self.network.verified_by_public_key_bin.get(auth.public_key_bin)
+            if peer:
+                peer.add_address(source_address)
+            return func(self, peer or Peer(auth.public_key_bin, source_address), *unpacked)""",
+     "new": """            if auth.public_key_bin in self.network.verified_by_public_key_bin:
+                peer = self.network.verified_by_public_key_bin[auth.public_key_bin]
+                peer.add_address(source_address)
+            else:
+                peer = Peer(self.my_peer.public_key.key_to_bin(), source_address)
+            return func(self, peer, *unpacked)"""},
     {"name": "registration via __wrapped__", "file": "ipv8/attestation/identity/community.py", "rule": "no-bypass",
      "old": "self.add_message_handler(AttestPayload, self.on_attest)",
      "new": "self.add_message_handler(AttestPayload, self.on_attest.__wrapped__)"},
